@@ -86,20 +86,22 @@ Theorem C08_offered_machine_start_only_for_unordered_pre_buffer :
 Proof. intros i x offers m j W. apply offered_start_only_for_unordered_pre_buffer. apply WFS_complete; auto. Qed.
 Print Assumptions C08_offered_machine_start_only_for_unordered_pre_buffer.
 
-(* (a)-(c) composed, over whole runs of every instance: in the micro-log of EVERY decision of EVERY run, every entry satisfies the
-   event clause ev_pre_release with respect to the micro-state before it (the state the decision was taken in, for the first
+(* (a)-(c) composed with the AGV side, over whole runs of every instance: in the micro-log of EVERY decision of EVERY run, every
+   entry satisfies the event clauses ev_pre_release and ev_transit_release (the two clauses the monitors evaluate on every
+   transition of the implementation) with respect to the micro-state before it (the state the decision was taken in, for the first
    entry; the clock may have been moved in between, the clause does not read it): an IDLE -> SETUP takes the job at the position
-   the pre-buffer's discipline releases - head for FIFO/DUMMY, last for LIFO, any stored job for FLEX. SMP/LiftProv.v records for
+   the pre-buffer's discipline releases - head for FIFO/DUMMY, last for LIFO, any stored job for FLEX -, and an AGV that takes a
+   job takes it from the release position of the post- or standalone buffer it lies in. SMP/LiftProv.v records for
    every log entry the state it was applied in (chainW), SMP/Release.v carries "a pending machine start names the released job"
    through the batch (machines first, so only other machines act before it). *)
-Theorem C08_machines_take_the_released_job_every_instance :
+Theorem C08_every_taker_takes_the_released_job_every_instance :
   forall (sigma : oracle) (i : inst) (fuel : nat) (x0 : state) (joker0 : Z) (ta : bool) (r : result) (m : mw)
          (a : Z) (r' : result) (m' : mw) (lg : mlog),
     inst_nonneg_b i = true ->
     clock_b x0 = true -> wfs_b i x0 = true -> fresh2_b i x0 = true -> nodep_b x0 = true -> pre_ok_b x0 = true ->
     reach sigma i fuel x0 joker0 ta r m -> mw_step sigma i fuel r m a = MOk r' m' lg -> chain_release i (r_x r) lg.
 Proof. intros sigma i fuel x0 joker0 ta r m a r' m' lg Hnn. apply run_release_order; auto. Qed.
-Print Assumptions C08_machines_take_the_released_job_every_instance.
+Print Assumptions C08_every_taker_takes_the_released_job_every_instance.
 
 (* non-vacuity: an instance with LIFO machine pre-buffers meets the hypotheses, and the micro-log of a decision of one of its
    runs contains a machine start (created by the simulator from the pre-buffer) *)
